@@ -16,6 +16,24 @@ pub fn run_c08<C: NatCtx>(v: &mut Env<C>) {
     let quick = v.h.tier == Tier::Quick;
     let ctx = v.ctx.clone();
     let tok = v.tok.clone();
+    // ---- SCALE (implementation only, cheapest group): many trustees, long ciphertext lists
+    if v.small && p == big(23) && C::kind() == 'B' {
+        for (nt, ll) in if quick { vec![(70usize, 40usize), (3, 4100), (2, 70001)] } else { vec![(70, 40), (300, 10), (3, 4100), (5, 16390), (2, 70001), (2, 140000)] } {
+            strand::verif_hooks::load_exp_tape(vec![]);
+            let sks: Vec<BigUint> = (0..nt).map(|_| v.rnd_exp()).collect();
+            let pks: Vec<PublicKey<C>> = sks.iter().map(|s| PublicKey::from_element(&ctx.gmod_pow(&v.x(s)), &ctx)).collect();
+            let joint = KeymakerV::combine_pks(&ctx, pks);
+            let jv = C::e_val(strand::verif_hooks::pk_element(&joint));
+            let want = g.modpow(&sks.iter().fold(big(0), |a, b| (a + b) % &q), &p);
+            v.h.check(jv == want, || format!("joint key of {} trustees is not the product of the shares on {}", nt, tok));
+            let ms: Vec<BigUint> = (0..ll).map(|_| v.rnd_member()).collect();
+            let cts: Vec<Ciphertext<C>> = ms.iter().map(|m| joint.encrypt(&v.e(m))).collect();
+            let decs: Vec<Vec<C::E>> = sks.iter().map(|s| { let key = PrivateKey::from(&v.x(s), &ctx); cts.iter().map(|c| key.decryption_factor(c)).collect() }).collect();
+            let out: Vec<BigUint> = KeymakerV::joint_dec_many(&ctx, &decs, &cts).iter().map(C::e_val).collect();
+            let bad = out.iter().zip(ms.iter()).position(|(a, b)| a != b);
+            v.h.check(out.len() == ll && bad.is_none(), || format!("joint decryption of {} ciphertexts by {} trustees: {} results, first wrong position {:?} on {}", ll, nt, out.len(), bad, tok));
+        }
+    }
     let maxn = if v.small { if quick { 5 } else { 16 } } else if quick { 3 } else { 8 };
     for nt in 1..=maxn {
         let label = v.label(nt);
@@ -212,7 +230,8 @@ pub fn run_c10<C: NatCtx>(v: &mut Env<C>) {
     }
     // ---- large committees (n up to 16, t up to 13): every share against an independent Horner evaluation
     // over the integers mod q, reconstruction from the HIGHEST positions and from a random subset
-    for (nn, t) in if quick { vec![(12usize, 10usize), (16, 13)] } else { vec![(11, 11), (12, 10), (12, 12), (13, 11), (16, 13), (16, 9)] } {
+    // (beyond 20 present trustees the products of positions no longer fit a machine word)
+    for (nn, t) in if quick { vec![(12usize, 10usize), (16, 13), (24, 22), (40, 33), (70, 70)] } else { vec![(11, 11), (12, 10), (12, 12), (13, 11), (16, 13), (16, 9), (21, 21), (24, 22), (33, 33), (40, 33), (70, 70), (130, 129), (300, 260)] } {
         if big(nn as u64) >= q {
             continue;
         }
@@ -235,11 +254,15 @@ pub fn run_c10<C: NatCtx>(v: &mut Env<C>) {
         rnd_set.truncate(t);
         for present in [((nn - t + 1)..=nn).collect::<Vec<usize>>(), rnd_set] {
             let mut acc = big(0);
+            let mut panicked = None;
             for &i in &present {
-                let lam = C::x_val(&threshold::lagrange(i, &present, &ctx));
-                acc = (acc + lam * &shares[i - 1]) % &q;
+                match std::panic::catch_unwind(std::panic::AssertUnwindSafe(|| C::x_val(&threshold::lagrange(i, &present, &ctx)))) {
+                    Ok(lam) => acc = (acc + lam * &shares[i - 1]) % &q,
+                    Err(_) => panicked = Some(i),
+                }
             }
-            v.h.check(acc == coeffs[0].clone() % &q, || format!("trustees {:?} of n={} (t={}) do not reconstruct the dealer's secret on {}", present, nn, t, tok));
+            v.h.check(panicked.is_none(), || format!("lagrange({}, {:?}) panics (n={}, t={}) on {}", panicked.unwrap_or(0), present, nn, t, tok));
+            v.h.check(panicked.is_some() || acc == coeffs[0].clone() % &q, || format!("trustees {:?} of n={} (t={}) do not reconstruct the dealer's secret on {}", present, nn, t, tok));
         }
     }
     let ns: Vec<usize> = if v.small { if quick { vec![2, 4, 6] } else { vec![2, 3, 5, 8, 10] } } else if quick { vec![3] } else { vec![3, 6] };
